@@ -243,6 +243,33 @@ def getDependentProducts (db : Db) (fuel : Nat) (top : Prod) (topological checkC
             | none => e
           .ok (uniqueLast (sortStable entryLe out))
 
+/-! ### the build-order consumer: `Distrib._createDeps` (python/eups/distrib/Distrib.py l.367-480) -/
+
+/-- `dependencies.sort(key=byDepth)` with `byDepth(a) = -a[2]`: deepest first, ties in listing order -/
+def buildOrder (out : List Entry) : List Entry :=
+  sortStable (fun a b => decide (b.depth.getD 0 ≤ a.depth.getD 0)) out
+
+inductive BuildOutcome where
+  | ok (l : List (Str × Option Str × Bool))     -- (product, version, optional) in installation order
+  | notFound                                   -- a required dependency cannot be resolved
+  | undetermined                               -- "Unable to determine dependencies" (the listing raised)
+deriving Repr, DecidableEq
+
+/-- the manifest `_createDeps` builds: the topological listing sorted by decreasing depth, every entry looked up
+again (`findProductFromVRO(name, version)`; an optional one that is not found is dropped, a required one raises),
+the top product rolled to the end -/
+def createDeps (db : Db) (fuel : Nat) (top : Prod) : BuildOutcome :=
+  match getDependentProducts db fuel top true false with
+  | .ok l =>
+    let rec go : List Entry → List (Str × Option Str × Bool) → BuildOutcome
+      | [], acc => .ok (acc ++ [(top.name, top.ver, false)])
+      | e :: es, acc =>
+        match db.find e.prod.name e.prod.ver with
+        | some p => go es (acc ++ [(p.name, p.ver, e.optional)])
+        | none => if e.optional then go es acc else .notFound
+    go (buildOrder l) []
+  | _ => .undetermined
+
 /-! ### `uses` -/
 
 /-- `(user, userVersion, Props(version, optional, depth))` -/
